@@ -11,6 +11,10 @@ from .. import contracts, prog
 from . import c06
 
 PROP = "C10"
+LEVEL_TEXT = 'History pairs: a program P and P with inserted read-only operations (k read plans, one reading after every step) are both executed and every event of P is compared; purity tap around every read; process-global state monitor (numpy print options, error state, index width). Exploration over histories.'
+LEVEL_NOTE = "trusts numpy 2.x, CPython (copy.copy, slice semantics, big ints) and the reference model in rtmon/props/c10.py; decides the executions it produces, nothing more"
+TECHNIQUE = 'runtime monitoring: offline comparison of two recorded histories (with / without inserted reads) + online purity tap + global-state monitor'
+DESIGN_REF = "DESIGN.md sections 0, 5 (C10), 7"
 RULE = ("case = (program P as in C06, read plans R_1..R_k: step position -> [(variable, read-only operation, argument)]); P and P+R_i are both executed on the library; "
         "distinct = hash of (P, plans); non-trivial = at least one inserted read on a derived array")
 ASSUMPTIONS = ["class A programs never write into a buffer that an unmaterialised selection still shares; class B programs do (known finding F10) and are classified, not judged strictly"]
